@@ -6,7 +6,7 @@
     [Model/ExampleRust.v], [Model/Emit.v] or [Model/TypePath.v]. *)
 From Coq Require Import List NArith ZArith Bool String Ascii.
 From V Require Import Base.Util Base.Strings Base.Result Model.Registry Model.Settings Model.Subst
-  Model.Builders Model.RngWords Model.ExampleRust Checkers.Parse Corr.RunTG.
+  Model.Builders Model.RngWords Model.Generate Model.ExampleRust Model.Conforms Checkers.Parse Corr.RunTG.
 Import ListNotations.
 Open Scope string_scope. Open Scope list_scope. Open Scope N_scope.
 
@@ -503,6 +503,32 @@ Definition prop_conforms (c : case) : bool :=
         end) c
   end.
 
+(** ** the relation of the theorem [C14_conforms] vs the independent reader.
+    [Model.Conforms.conforms_irb] reads an expression in lockstep with the registry and the MODEL's
+    generated items ([model_items] = [generate]); it is sound for the inductive relation
+    [Model.Conforms.conforms] (Proofs/ConformsProofs.v, [conforms_irb_sound]) which the model's
+    examples are PROVED to satisfy.  On every OBSERVED Ok example its verdict must coincide with
+    the verdict of the independent reader [conformsb] (observed tokens, parsed observed module).
+    Applies when the module was generated, parses, and the model generates too. *)
+Definition irb_vs_reader (f : bool -> bool -> bool) (dflt : bool) (c : case) : bool :=
+  match parsed_module c with
+  | Some (Some pm) =>
+      let s := settings_of (c_spec c) in
+      match model_items (c_reg c) s with
+      | Ok m =>
+          for_obs (fun _ o =>
+            match eo_out o with
+            | OOk t => f (conforms_irb (c_reg c) s m (eo_id o) t)
+                         (conformsb (c_reg c) (ss_root (c_spec c)) (Some pm) (c_paths c) (eo_id o) t)
+            | _ => true
+            end) c
+      | _ => dflt
+      end
+  | _ => dflt
+  end.
+
+Definition corr_conforms_agree : case -> bool := irb_vs_reader Bool.eqb true.
+
 (** (registries whose names are not identifiers -- e.g. a variant called [struct] --
     are outside the property's quantifier) *)
 Definition prop_parses (c : case) : bool :=
@@ -594,6 +620,20 @@ Definition hyp_module (c : case) : bool :=
 Definition hyp_item_checked (c : case) : bool :=
   hyp_module c &&
   ex_obs (fun _ o => match eo_out o with OOk t => existsb (String.eqb (ss_root (c_spec c))) t | _ => false end) c.
+(** some Ok example was accepted by the model-side reader [conforms_irb] *)
+Definition hyp_irb_accepts (c : case) : bool :=
+  match parsed_module c with
+  | Some (Some _) =>
+      let s := settings_of (c_spec c) in
+      match model_items (c_reg c) s with
+      | Ok m => ex_obs (fun _ o => match eo_out o with
+                                   | OOk t => conforms_irb (c_reg c) s m (eo_id o) t
+                                   | _ => false
+                                   end) c
+      | _ => false
+      end
+  | _ => false
+  end.
 Definition hyp_in_class (c : case) : bool := small c && in_class (c_reg c).
 Definition hyp_total_hyps (c : case) : bool := small c && in_class (c_reg c) && hyp_ok c.
 
